@@ -2,6 +2,7 @@
 (tokens and lattice coordinates) and the independent code-unit table; and the comparison with a real Dataset."""
 import math
 
+from . import common
 from .units_map import cgs_of_sparse, dim_of_sparse, sparse_of_pint
 
 ASTRO = {"au", "pc", "yr", "M_sun", "M_earth", "M_jup", "R_sun", "R_earth", "R_jup", "L_sun", "L_bol0", "ar"}
@@ -133,9 +134,9 @@ def observed_group(group):
             # definition is the subject of C08, here the library's own value is used
             f = float((1.0 * item.unit).to_base_units().magnitude)
         dim = dim_of_sparse(sp)
-        if hasattr(item, "_xyz"):
+        if common.is_vector(item):
             names = []
-            for c, arr in item._xyz.items():
+            for c, arr in common.comps_of(item).items():
                 n = f"{key}:{c}"
                 names.append(n)
                 cols[n] = (np.asarray(arr.values, dtype=float) * f).tolist()
